@@ -177,6 +177,10 @@ pub fn install_panic_hook() {
                 "<non-string panic payload>".to_string()
             };
             let (file, line) = info.location().map(|l| (l.file().to_string(), l.line())).unwrap_or_default();
+            if !file.starts_with(REPO_SRC) && file.contains("/verif/") || std::env::var_os("VERIF_DEBUG_PANIC").is_some() {
+                // a panic in the harness itself must never be silent
+                eprintln!("harness panic: {} at {}:{}", msg, file, line);
+            }
             let direct = file.starts_with(REPO_SRC) && !file.ends_with("/utils.rs");
             let (origin, client) = if direct && !FULL_SITES.load(Ordering::Relaxed) {
                 (render_site(&file, line), String::new())
